@@ -35,17 +35,21 @@ var paramTypes = map[string]string{
 }
 
 type tr struct {
-	bad    []string
-	state  string // name of the header map the function updates: "buf" (bool functions) or "resHdrs" (void functions)
-	void   bool   // the function returns nothing: `return` and the end of the body yield the state
-	status bool   // a void function that takes the ResponseWriter: the result is (header map, status written if any)
-	p      *pkgInfo
+	bad     []string
+	state   string // name of the header map the function updates: "buf" (bool functions) or "resHdrs" (void functions)
+	void    bool   // the function returns nothing: `return` and the end of the body yield the state
+	status  bool   // a void function that takes the ResponseWriter: the result is (header map, status written if any)
+	closure bool   // the handler closure of Wrap: the result is the whole response (headers, status, wrapped handler called)
+	p       *pkgInfo
 }
 
 // the bool steps that take the buffer first (translated themselves): a call `icfg.M(buf, …)` in an `if` condition
 var stepMethods = map[string]bool{"processOriginForPreflight": true, "processACRPN": true, "processACRM": true, "processACRH": true}
 
 func (t *tr) final() string {
+	if t.closure {
+		return "{ hdrs := " + t.state + ", status := status, next := next }"
+	}
 	if t.status {
 		return "(" + t.state + ", status)"
 	}
@@ -100,6 +104,17 @@ func (t *tr) expr(e ast.Expr) string {
 			if tv, ok := t.p.info.Types[e]; ok && tv.Value != nil && tv.Value.Kind() == constant.Int {
 				return tv.Value.ExactString() // http.StatusForbidden
 			}
+		}
+		if id, ok := e.X.(*ast.Ident); ok && id.Name == "r" && t.closure {
+			switch e.Sel.Name {
+			case "Method":
+				return "r.method"
+			case "Header":
+				return "r.hdrs"
+			}
+		}
+		if exprText(e) == "http.MethodOptions" {
+			return "Serve.OPTIONS"
 		}
 		if id, ok := e.X.(*ast.Ident); ok {
 			switch id.Name {
@@ -188,6 +203,13 @@ func (t *tr) stmts(list []ast.Stmt, ind string) string {
 				}
 			}
 		}
+		if s.Tok == token.DEFINE && len(s.Lhs) == 1 && len(s.Rhs) == 1 && t.closure {
+			if id, ok := s.Lhs[0].(*ast.Ident); ok {
+				if _, isCall := s.Rhs[0].(*ast.CallExpr); !isCall {
+					return "let " + id.Name + " := " + t.expr(s.Rhs[0]) + "\n" + ind + t.stmts(rest, ind)
+				}
+			}
+		}
 		if s.Tok == token.DEFINE && len(s.Rhs) == 1 {
 			var names []string
 			for _, l := range s.Lhs {
@@ -226,25 +248,30 @@ func (t *tr) stmts(list []ast.Stmt, ind string) string {
 				return out + t.stmts(rest, ind)
 			}
 		}
+	case *ast.ExprStmt:
+		if c, ok := s.X.(*ast.CallExpr); ok && t.closure {
+			fn := exprText(c.Fun)
+			tail := func(from int) string {
+				var args []string
+				for _, a := range c.Args[from:] {
+					args = append(args, t.expr(a))
+				}
+				return strings.Join(args, " ")
+			}
+			switch {
+			case fn == "h.ServeHTTP" && len(c.Args) == 2 && exprText(c.Args[0]) == "w" && exprText(c.Args[1]) == "r":
+				return "let next := true\n" + ind + t.stmts(rest, ind)
+			case fn == "icfg.handleNonCORS" && len(c.Args) == 2 && exprText(c.Args[0]) == "w.Header()":
+				return "let " + t.state + " := handleNonCORS icfg " + t.state + " " + tail(1) + "\n" + ind + t.stmts(rest, ind)
+			case (fn == "icfg.handleCORSPreflight" || fn == "icfg.handleCORSActual") && len(c.Args) >= 1 && exprText(c.Args[0]) == "w":
+				return "let r__ := " + strings.TrimPrefix(fn, "icfg.") + " icfg " + t.state + " " + tail(1) + "\n" + ind +
+					"let " + t.state + " := r__.1\n" + ind + "let status := r__.2\n" + ind + t.stmts(rest, ind)
+			}
+		}
+		return t.exprStmt(s, rest, ind)
 	case *ast.DeclStmt:
 		if gd, ok := s.Decl.(*ast.GenDecl); ok && gd.Tok == token.CONST {
 			return t.stmts(rest, ind) // local constants are evaluated where they are used (size hints only)
-		}
-	case *ast.ExprStmt:
-		if c, ok := s.X.(*ast.CallExpr); ok {
-			fn := exprText(c.Fun)
-			if fn == "maps.Copy" && len(c.Args) == 2 && t.isState(c.Args[0]) {
-				return "let " + t.state + " := HdrMap.copy " + t.state + " " + t.expr(c.Args[1]) + "\n" + ind + t.stmts(rest, ind)
-			}
-			if fn == "w.WriteHeader" && len(c.Args) == 1 && t.status {
-				return "let status : Option Nat := some " + t.expr(c.Args[0]) + "\n" + ind + t.stmts(rest, ind)
-			}
-		}
-		if c, ok := s.X.(*ast.CallExpr); ok && len(c.Args) == 2 {
-			if sel, ok := c.Fun.(*ast.SelectorExpr); ok && t.isState(sel.X) && (sel.Sel.Name == "Add" || sel.Sel.Name == "Set") {
-				op := map[string]string{"Add": "HdrMap.add", "Set": "HdrMap.set"}[sel.Sel.Name]
-				return "let " + t.state + " := " + op + " " + t.state + " " + t.expr(c.Args[0]) + " " + t.expr(c.Args[1]) + "\n" + ind + t.stmts(rest, ind)
-			}
 		}
 	case *ast.SwitchStmt:
 		// tagless switch without fallthrough: an if-chain
@@ -316,6 +343,25 @@ func (t *tr) stmts(list []ast.Stmt, ind string) string {
 	return t.unsupported(s)
 }
 
+func (t *tr) exprStmt(s *ast.ExprStmt, rest []ast.Stmt, ind string) string {
+	if c, ok := s.X.(*ast.CallExpr); ok {
+		fn := exprText(c.Fun)
+		if fn == "maps.Copy" && len(c.Args) == 2 && t.isState(c.Args[0]) {
+			return "let " + t.state + " := HdrMap.copy " + t.state + " " + t.expr(c.Args[1]) + "\n" + ind + t.stmts(rest, ind)
+		}
+		if fn == "w.WriteHeader" && len(c.Args) == 1 && t.status {
+			return "let status : Option Nat := some " + t.expr(c.Args[0]) + "\n" + ind + t.stmts(rest, ind)
+		}
+	}
+	if c, ok := s.X.(*ast.CallExpr); ok && len(c.Args) == 2 {
+		if sel, ok := c.Fun.(*ast.SelectorExpr); ok && t.isState(sel.X) && (sel.Sel.Name == "Add" || sel.Sel.Name == "Set") {
+			op := map[string]string{"Add": "HdrMap.add", "Set": "HdrMap.set"}[sel.Sel.Name]
+			return "let " + t.state + " := " + op + " " + t.state + " " + t.expr(c.Args[0]) + " " + t.expr(c.Args[1]) + "\n" + ind + t.stmts(rest, ind)
+		}
+	}
+	return t.unsupported(s)
+}
+
 func translatePipeline(pkgs map[string]*pkgInfo) string {
 	p := pkgs["cors"]
 	var b strings.Builder
@@ -379,6 +425,54 @@ func translatePipeline(pkgs map[string]*pkgInfo) string {
 			fmt.Fprintf(&b, "/- UNSUPPORTED in %s: %s -/\n\n", w, strings.ReplaceAll(strings.Join(t.bad, " ;; "), "-/", "- /"))
 		}
 	}
+	b.WriteString(translateClosure(p))
 	b.WriteString("end Cors.Gen.GoSrc\n")
+	return b.String()
+}
+
+// translateClosure: the handler closure returned by Wrap, from the statement after `if icfg == nil { … }` on (the
+// snapshot under the read lock and the passthrough branch are the business of the lock programs of C07 and of the state
+// machine of C09/C11): the dispatch on Origin / method / ACRM and the calls of the three handlers and of the wrapped handler.
+func translateClosure(p *pkgInfo) string {
+	var lit *ast.FuncLit
+	if p != nil {
+		for _, f := range p.files {
+			for _, d := range f.Decls {
+				if x, ok := d.(*ast.FuncDecl); ok && x.Name.Name == "Wrap" && x.Recv != nil && x.Body != nil {
+					ast.Inspect(x.Body, func(n ast.Node) bool {
+						if fl, ok := n.(*ast.FuncLit); ok && lit == nil {
+							lit = fl
+						}
+						return lit == nil
+					})
+				}
+			}
+		}
+	}
+	if lit == nil {
+		return "/-- the closure of `Wrap` is missing from the source. -/\ndef serveClosure : Unit := ()\n\n"
+	}
+	t := &tr{state: "resHdrs", void: true, status: true, closure: true, p: p}
+	var after []ast.Stmt
+	found := false
+	for i, st := range lit.Body.List {
+		if is, ok := st.(*ast.IfStmt); ok && exprText(is.Cond) == "icfg == nil" {
+			after, found = lit.Body.List[i+1:], true
+			break
+		}
+	}
+	var body string
+	if !found {
+		t.bad = append(t.bad, "no `if icfg == nil` in the closure")
+		body = `(GoRt.unsupported "no passthrough test")`
+	} else {
+		body = t.stmts(after, "  ")
+	}
+	var b strings.Builder
+	fmt.Fprintf(&b, "/-- the closure of `Wrap` after the passthrough test, translated from: %s -/\n", strings.ReplaceAll(codeText(&ast.BlockStmt{List: after}), "-/", "- /"))
+	fmt.Fprintf(&b, "def serveClosure (icfg : ICfg) (debug : Bool) (r : Req) (resHdrs : HdrMap) : Resp :=\n  let status : Option Nat := none\n  let next := false\n  %s\n\n", body)
+	if len(t.bad) > 0 {
+		fmt.Fprintf(&b, "/- UNSUPPORTED in the closure of Wrap: %s -/\n\n", strings.ReplaceAll(strings.Join(t.bad, " ;; "), "-/", "- /"))
+	}
 	return b.String()
 }
